@@ -704,6 +704,38 @@ fn main() {
             // records of tasks the connections spawned (ping handler, pipes) may follow ConnDone
             std::thread::sleep(Duration::from_millis(settle_ms));
         }
+        // HTTP/3 field values are octets (QPACK carries anything, quiche does not look): a secret-bearing field whose value
+        // holds a control octet (credentials pasted with their newline) makes the request invalid - Secrets.tla MalformedValue:
+        // the rejection may name the field, never the value. One round per QUIC scenario shape of this configuration.
+        {
+            let quic: Vec<&Mat> = mine.iter().filter(|m| m.v["s"]["via"] == "quic" && m.v["s"]["kind"] != "none").collect();
+            let mut seen_shapes = std::collections::BTreeSet::new();
+            let picks: Vec<Mat> = quic.into_iter().filter(|m| seen_shapes.insert(format!("{}|{}", m.v["s"]["kind"], m.sni.as_deref().unwrap_or("")))).take(6).cloned().collect();
+            if !picks.is_empty() {
+                logcap::clear_canaries();
+                for (k, base) in picks.iter().enumerate() {
+                    let tok = format!("mal{}x{}q{}", cfg_id.len(), k, base.idx);
+                    let b64 = { use base64::Engine; base64::engine::general_purpose::STANDARD.encode(format!("u{}:{}pw9Z", tok, tok)) };
+                    let fields: Vec<(String, String)> = vec![
+                        ("proxy-authorization".into(), format!("Basic {}\n", b64)),
+                        ("authorization".into(), format!("Bearer {}az\u{1}tail", tok)),
+                        ("cookie".into(), format!("session={}ck\u{7f}; a=1", tok)),
+                    ];
+                    logcap::plant("proxy-authorization[malformed]", &b64, &[&format!("{}pw9Z", tok)]);
+                    logcap::plant("authorization[malformed]", &format!("{}az", tok), &[]);
+                    logcap::plant("cookie[malformed]", &format!("{}ck", tok), &[]);
+                    for f in fields {
+                        let mut m = base.clone();
+                        m.headers = vec![f];
+                        logcap::set_scenario(&json!({"kind": "malformed-field-value", "via": "quic", "field": m.headers[0].0, "request": m.v["s"]["kind"], "sni": m.sni}).to_string());
+                        let _ = catch(|| h3_client(&m, port, dest_port, origin_port));
+                        rep.eval();
+                        rep.count("malformed_field_values", 1);
+                    }
+                }
+                std::thread::sleep(Duration::from_millis(settle_ms));
+            }
+        }
         std::thread::sleep(Duration::from_millis(150));
         listen.abort();
         pump.feed(verif::drain_events());
